@@ -663,17 +663,17 @@ fn main() {
         corpus::<PH>(&mut s, &mut pools, &mut r);
     }
 
-    let base = if thorough { 900 } else { 36 };
+    let base = if thorough { 4000 } else { 60 };
     gen_cases::<i64>(&mut s, &mut pools, &mut r, base * 2, thorough);
     gen_cases::<Ratio<i64>>(&mut s, &mut pools, &mut r, base, thorough);
     gen_cases::<FF<3>>(&mut s, &mut pools, &mut r, base / 2, thorough);
     gen_cases::<FF<5>>(&mut s, &mut pools, &mut r, base / 2, thorough);
     gen_cases::<PH>(&mut s, &mut pools, &mut r, base, thorough);
 
-    race_cases::<i64>(&mut s, &mut pools, &mut r, if thorough { 1500 } else { 120 });
-    race_cases::<FF<3>>(&mut s, &mut pools, &mut r, if thorough { 500 } else { 40 });
+    race_cases::<i64>(&mut s, &mut pools, &mut r, if thorough { 6000 } else { 150 });
+    race_cases::<FF<3>>(&mut s, &mut pools, &mut r, if thorough { 2000 } else { 50 });
 
-    enum_cases(&mut s, &mut r, if thorough { 400 } else { 25 });
+    enum_cases(&mut s, &mut r, if thorough { 1500 } else { 40 });
 
     s.finish();
 }
